@@ -256,6 +256,23 @@ def resolve(model: RefDir, op):
         return {'a': 'scaled_unit', 'type': tn, 'sym': f'u{n}',
                 'parent': parent, 'k': k, 'via': ['rmul', 'mul'][r[4] % 2]
                 if k['t'] != 'prefix' else 'rmul', 'expect': 'accept'}
+    if kind == 'alias_unit':
+        # a unit with the same scale as an existing one, reached by another
+        # route: k = scale(target) / scale(parent), as a Fraction
+        cands = [tn for tn in model.types_with_ref()
+                 if model.types[tn]['quantum'] is None
+                 and len(model.types[tn]['units']) >= 2]
+        tn = _pick(cands, r[0])
+        if tn is None:
+            return None
+        t = model.types[tn]
+        parent = _pick(t['units'][1:], r[1])
+        target = _pick(t['units'], r[2]) if r[3] % 2 else t['units'][0]
+        k = model.units[target]['factor'] / model.units[parent]['factor']
+        return {'a': 'scaled_unit', 'type': tn, 'sym': f'u{n}',
+                'parent': parent, 'k': {'t': 'frac', 'v': str(k)},
+                'via': ['rmul', 'mul'][r[4] % 2], 'expect': 'accept',
+                'alias_of': target}
     if kind in ('term_unit', 'wrong_dim_term'):
         cands = [tn for tn in model.types_with_ref()
                  if not model.types[tn]['base']]
